@@ -445,8 +445,8 @@ def cli_case(case, env):
 
 def check(tier, seed, t0):
     common.build_rg()
-    total = 40 if tier == "quick" else 600
-    parts = [("cli", common.run_cli_cases(None, cli_case, seed, "c08", total, 3 if tier == "quick" else 38,
+    total = 40 if tier == "quick" else 300
+    parts = [("cli", common.run_cli_cases(None, cli_case, seed, "c08", total, 3 if tier == "quick" else 19,
                                           extra={"tier": tier}))]
     if tier == "thorough":
         import sanitize
